@@ -648,7 +648,7 @@ theorem invAck_step (cfg : Cfg) (s : State) (e : Event) (s' : State) (hO : InvOr
     repeat' split at hs
     all_goals (first | (cases hs; done) | skip)
     rename_i _ P hP hg
-    obtain ⟨-, hc, hpend, hb⟩ := hg
+    obtain ⟨-, hc, hpend, hb, -⟩ := hg
     cases hs
     exact invAck_newBatch hO hI hP hc hpend (by simpa using hb) rfl rfl rfl
   | detach pw b why size =>
